@@ -6,12 +6,20 @@ package main
 // document tree (order preserving, numbers through strconv.ParseFloat as float64 bits) and ships
 // the tree; the Lean driver compares trees with the model's documents (lean/Orb/GeoJSON.lean).
 //
+// Ops:  geom / typed / feat / fc   a value through both codecs and every decoder (documents, decode
+//                                   outcomes incl. the decoded Type fields, re-marshal; fc: ExtraMembers untouched)
+//       bbox                        geojson/bbox.go: NewBBox, Valid, Bound
+//       hostile                     arbitrary bytes through every decoder incl. the six typed helper types
+//
 // Tree tokens (prefix form):   n | t | f | d <16hex> | s x<hex utf8> | a <n> tree* | o <n> (x<hex> tree)*
 //                              B   (bson only: a boolean whose payload byte is neither 0 nor 1 — the
 //                                   element can be skipped and copied raw, every typed read of it fails)
 // input only:                  i <decimal>   (a Go int)
-// Feature tokens:              F <id: - | tree> <bbox: - | b n hex*> <gval> <props: - | o …>
-// FeatureCollection tokens:    FC <bbox> <features: - | l n (N | F…)*> <extra: - | o …>
+// Feature tokens:              F [x<hex Type>] <id: - | tree> <bbox: - | b n hex*> <gval> <props: - | o …>
+// FeatureCollection tokens:    FC [x<hex Type>] <bbox> <features: - | l n (N | F…)*> <extra: - | o …>
+//                              (the Type token is always present in OUTCOMES — the decoded Type field is
+//                              observed; in inputs it is optional: absent = "Feature" / "FeatureCollection")
+// Geometries in INPUTS are written with gsN (nil rings / lines / polygons, typed-nil collection members).
 
 import (
 	"bytes"
@@ -23,6 +31,7 @@ import (
 	"sort"
 	"strconv"
 	"strings"
+	"time"
 	"unicode/utf8"
 
 	"github.com/paulmach/orb"
@@ -220,14 +229,32 @@ func parseJSONTree(data []byte) (*jnode, bool) {
 }
 
 // bsonValueTree converts a BSON value; int32/int64 become the float64 the decoders convert them to.
+// docLike8: the 8 payload bytes of a double / int64 form a well-formed BSON document of length 8
+// (`08 00 00 00 <type> <1-char key> 00 00` with a zero-length value, or `08 00 00 00 08 00 <bool> 00`).
+// bson's UnmarshalerDecodeValue hands the raw bytes of a value of ANY type to UnmarshalBSON, which
+// decodes them as a document: such a number in a "geometry" / "geometries" / "features" position is
+// read as a (type-less) document instead of being rejected.  The tree alphabet cannot say that, so
+// the value is marked exotic (only panics / allocation are judged for the document).
+func docLike8(b []byte) bool {
+	if len(b) != 8 || b[0] != 8 || b[1] != 0 || b[2] != 0 || b[3] != 0 || b[7] != 0 {
+		return false
+	}
+	defer func() { recover() }()
+	return bsoncore.Document(b).Validate() == nil
+}
+
+// bsonMaxDepth: deeper documents are shipped as exotic (X).  encoding/json stops at 10000 levels;
+// BSON has no cap of its own, the deepest generated document (genGeoJSONHostileFixed) has 2*4000.
+const bsonMaxDepth = 12000
+
 func bsonValueTree(v bsoncore.Value, depth int) *jnode {
-	if depth > 200 {
+	if depth > bsonMaxDepth {
 		return &jnode{k: 'X'}
 	}
 	switch v.Type {
 	case bsontype.Double:
 		f, ok := v.DoubleOK()
-		if !ok {
+		if !ok || docLike8(v.Data) {
 			return &jnode{k: 'X'}
 		}
 		return jnum(f)
@@ -268,7 +295,7 @@ func bsonValueTree(v bsoncore.Value, depth int) *jnode {
 		return jnum(float64(i))
 	case bsontype.Int64:
 		i, ok := v.Int64OK()
-		if !ok || i > 1<<53 || i < -(1<<53) {
+		if !ok || i > 1<<53 || i < -(1<<53) || docLike8(v.Data) {
 			return &jnode{k: 'X'}
 		}
 		return jnum(float64(i))
@@ -603,7 +630,7 @@ func featureTok(f *geojson.Feature) string {
 	if f.ID != nil {
 		id = treeOfValue(f.ID).tokens()
 	}
-	return "F " + id + " " + bboxTok(f.BBox) + " " + gs(f.Geometry) + " " + propsTok(f.Properties)
+	return "F " + xs(f.Type) + " " + id + " " + bboxTok(f.BBox) + " " + gs(f.Geometry) + " " + propsTok(f.Properties)
 }
 
 func fcTok(fc *geojson.FeatureCollection) string {
@@ -617,7 +644,7 @@ func fcTok(fc *geojson.FeatureCollection) string {
 			fs += " " + featureTok(f)
 		}
 	}
-	return "FC " + bboxTok(fc.BBox) + " " + fs + " " + propsTok(fc.ExtraMembers)
+	return "FC " + xs(fc.Type) + " " + bboxTok(fc.BBox) + " " + fs + " " + propsTok(fc.ExtraMembers)
 }
 
 func (r *tokReader) bbox() geojson.BBox {
@@ -660,6 +687,9 @@ func (r *tokReader) feature() *geojson.Feature {
 		panic("bad feature token " + t)
 	}
 	f := &geojson.Feature{Type: "Feature"}
+	if strings.HasPrefix(r.peek(), "x") {
+		f.Type = r.xstr()
+	}
 	if r.peek() == "-" {
 		r.next()
 	} else {
@@ -676,6 +706,9 @@ func (r *tokReader) fc() *geojson.FeatureCollection {
 		panic("bad fc token " + t)
 	}
 	fc := &geojson.FeatureCollection{Type: "FeatureCollection"}
+	if strings.HasPrefix(r.peek(), "x") {
+		fc.Type = r.xstr()
+	}
 	fc.BBox = r.bbox()
 	switch t := r.next(); t {
 	case "-":
@@ -713,7 +746,7 @@ func geometryOutcome(g *geojson.Geometry, err error) string {
 	if g == nil {
 		return "ok nil"
 	}
-	return "ok " + gs(g.Geometry())
+	return "ok " + xs(g.Type) + " " + gs(g.Geometry()) // the decoded Type field is observed
 }
 
 func featureOutcome(f *geojson.Feature, err error) string {
@@ -929,8 +962,11 @@ func c02Feature(f *geojson.Feature) string {
 func c02FC(fc *geojson.FeatureCollection) string {
 	var jb, bb []byte
 	var jerr, berr error
-	parts := make([]string, 0, 7)
+	parts := make([]string, 0, 8)
+	// newFeatureCollectionDoc works on a CLONE of ExtraMembers: marshalling must leave the caller's map alone
+	emBefore := propsTok(fc.ExtraMembers)
 	parts = append(parts, guard(func() string { jb, jerr = json.Marshal(fc); return jsonTreeTok(jb, jerr) }))
+	emAfterJSON := propsTok(fc.ExtraMembers)
 	if jerr == nil && jb != nil {
 		var f1 *geojson.FeatureCollection
 		uf := guard(func() string {
@@ -960,7 +996,27 @@ func c02FC(fc *geojson.FeatureCollection) string {
 	} else {
 		parts = append(parts, "na", "na")
 	}
+	if em := propsTok(fc.ExtraMembers); em == emBefore && emAfterJSON == emBefore {
+		parts = append(parts, "em same")
+	} else {
+		parts = append(parts, "em mutated")
+	}
 	return strings.Join(parts, " ; ")
+}
+
+// c02BBoxOp: geojson/bbox.go.  Input `<bbox: - | b n hex*> <4 hex: a bound>`; outcome
+// `valid <0|1> ; bound <4 hex> ; new <bbox tokens> ; newbound <4 hex>`
+// (BBox.Valid, BBox.Bound, NewBBox(bound), NewBBox(bound).Bound()).
+func c02BBoxOp(r *tokReader) string {
+	bb := r.bbox()
+	b := orb.Bound{Min: r.pt(), Max: r.pt()}
+	bt := func(b orb.Bound) string { return fb(b.Min[0]) + " " + fb(b.Min[1]) + " " + fb(b.Max[0]) + " " + fb(b.Max[1]) }
+	return strings.Join([]string{
+		guard(func() string { return "valid " + b2s(bb.Valid()) }),
+		guard(func() string { return "bound " + bt(bb.Bound()) }),
+		guard(func() string { return "new " + bboxTok(geojson.NewBBox(b)) }),
+		guard(func() string { return "newbound " + bt(geojson.NewBBox(b).Bound()) }),
+	}, " ; ")
 }
 
 func runC02(op string, in []string) string {
@@ -974,6 +1030,8 @@ func runC02(op string, in []string) string {
 		return c02Feature(r.feature())
 	case "fc":
 		return c02FC(r.fc())
+	case "bbox":
+		return c02BBoxOp(r)
 	case "hostile":
 		return runGeoJSONHostile(in)
 	}
@@ -993,10 +1051,63 @@ func classOf(err error, isNil bool) string {
 	return "ok"
 }
 
+// typedClass: outcome class of a typed helper decode ("geojson: not a Point type" is its own class)
+func typedClass(err error) string {
+	if err == nil {
+		return "ok"
+	}
+	if strings.Contains(err.Error(), "geojson: not a ") && strings.HasSuffix(err.Error(), " type") {
+		return "err:nottype"
+	}
+	return "err:" + gjErrClass(err)
+}
+
+// hostileWatchdog: a decoder that has not returned after THREE consecutive periods of this length is
+// reported as "timeout" (the quadratic nesting cases take several seconds for all decoders together).
+// Three periods, not one long one: a stall of the whole process (VM pause, swap storm, SIGSTOP — seen
+// once in a thorough run under load: a microsecond decode "timed out") makes a wall-clock timer
+// expire while the decoder's goroutine has not run at all; after the stall the goroutine finishes
+// within the next period, whereas a decoder that really loops outlasts all three.
+const hostileWatchdog = 40 * time.Second
+
+func guardW(f func() string) string {
+	ch := make(chan string, 1)
+	go func() { ch <- guard(f) }()
+	for i := 0; i < 3; i++ {
+		select {
+		case s := <-ch:
+			return s
+		case <-time.After(hostileWatchdog):
+		}
+	}
+	return "timeout"
+}
+
+// the six typed helper decoders (geojson.Point … geojson.MultiPolygon) on the same bytes
+func typedDecoders(kind string, cp func() []byte) [6]func() string {
+	um := func(dst interface{}) error {
+		if kind == "json" {
+			return json.Unmarshal(cp(), dst)
+		}
+		return bson.Unmarshal(cp(), dst)
+	}
+	return [6]func() string{
+		func() string { return typedClass(um(&geojson.Point{})) },
+		func() string { return typedClass(um(&geojson.MultiPoint{})) },
+		func() string { return typedClass(um(&geojson.LineString{})) },
+		func() string { return typedClass(um(&geojson.MultiLineString{})) },
+		func() string { return typedClass(um(&geojson.Polygon{})) },
+		func() string { return typedClass(um(&geojson.MultiPolygon{})) },
+	}
+}
+
 // runGeoJSONHostile: input `json|bson <hex bytes | empty>`.  Runs every GeoJSON decoder on the bytes
-// under guard and reports
-//   <tree tokens | nojson | exotic> ; rawnull <0|1> ; ug C ; ugp C ; uf C ; ufp C ; ufc C ; ufcp C ; alloc <bytes> <len>
-// with C ∈ ok | nil | err:json | err:invalid | err:nottype | panic | -   (bson has no pointer variants).
+// under guard + watchdog and reports
+//   <tree tokens | nojson | exotic> ; rawnull <0|1> ; ug C ; ugp C ; uf C ; ufp C ; ufc C ; ufcp C ;
+//   ty C C C C C C ; alloc <bytes> <len> <bytes of the typed helpers>
+// with C ∈ ok | nil | err:json | err:invalid | err:nottype | panic | timeout | -   (bson has no pointer
+// variants); `ty`: json.Unmarshal / bson.Unmarshal into geojson.Point, MultiPoint, LineString,
+// MultiLineString, Polygon, MultiPolygon.
 func runGeoJSONHostile(in []string) string {
 	if len(in) < 2 {
 		return "badinput"
@@ -1013,78 +1124,92 @@ func runGeoJSONHostile(in []string) string {
 	cp := func() []byte { return append([]byte(nil), data...) }
 	var tree string
 	var res [6]string
+	var ty [6]string
 	var ms0, ms1 runtime.MemStats
-	decodeAll := func() {
-		if kind == "json" {
-			guard(func() string { geojson.UnmarshalGeometry(cp()); return "" })
-			guard(func() string { var g *geojson.Geometry; json.Unmarshal(cp(), &g); return "" })
-			guard(func() string { geojson.UnmarshalFeature(cp()); return "" })
-			guard(func() string { var f *geojson.Feature; json.Unmarshal(cp(), &f); return "" })
-			guard(func() string { geojson.UnmarshalFeatureCollection(cp()); return "" })
-			guard(func() string { var fc *geojson.FeatureCollection; json.Unmarshal(cp(), &fc); return "" })
-		} else {
-			guard(func() string { bson.Unmarshal(cp(), &geojson.Geometry{}); return "" })
-			guard(func() string { bson.Unmarshal(cp(), &geojson.Feature{}); return "" })
-			guard(func() string { bson.Unmarshal(cp(), &geojson.FeatureCollection{}); return "" })
-		}
-	}
+	var main []func() string
 	if kind == "json" {
-		n, ok := parseJSONTree(data)
-		if !ok {
-			tree = "nojson"
-		} else if n.exotic() {
-			tree = "exotic"
-		} else {
-			tree = n.tokens()
+		main = []func() string{
+			func() string { g, err := geojson.UnmarshalGeometry(cp()); return classOf(err, err == nil && g == nil) },
+			func() string { var g *geojson.Geometry; err := json.Unmarshal(cp(), &g); return classOf(err, g == nil) },
+			func() string { f, err := geojson.UnmarshalFeature(cp()); return classOf(err, err == nil && f == nil) },
+			func() string { var f *geojson.Feature; err := json.Unmarshal(cp(), &f); return classOf(err, f == nil) },
+			func() string {
+				fc, err := geojson.UnmarshalFeatureCollection(cp())
+				return classOf(err, err == nil && fc == nil)
+			},
+			func() string { var fc *geojson.FeatureCollection; err := json.Unmarshal(cp(), &fc); return classOf(err, fc == nil) },
 		}
-		runtime.ReadMemStats(&ms0)
-		res[0] = guard(func() string { g, err := geojson.UnmarshalGeometry(cp()); return classOf(err, err == nil && g == nil) })
-		res[1] = guard(func() string { var g *geojson.Geometry; err := json.Unmarshal(cp(), &g); return classOf(err, g == nil) })
-		res[2] = guard(func() string { f, err := geojson.UnmarshalFeature(cp()); return classOf(err, err == nil && f == nil) })
-		res[3] = guard(func() string { var f *geojson.Feature; err := json.Unmarshal(cp(), &f); return classOf(err, f == nil) })
-		res[4] = guard(func() string {
-			fc, err := geojson.UnmarshalFeatureCollection(cp())
-			return classOf(err, err == nil && fc == nil)
-		})
-		res[5] = guard(func() string { var fc *geojson.FeatureCollection; err := json.Unmarshal(cp(), &fc); return classOf(err, fc == nil) })
-		runtime.ReadMemStats(&ms1)
 	} else {
-		n, ok := bsonTree(data)
-		if !ok {
-			tree = "nojson"
-		} else if n.exotic() {
-			tree = "exotic"
-		} else {
-			tree = n.tokens()
+		main = []func() string{
+			func() string { g := &geojson.Geometry{}; err := bson.Unmarshal(cp(), g); return classOf(err, false) },
+			nil,
+			func() string { f := &geojson.Feature{}; err := bson.Unmarshal(cp(), f); return classOf(err, false) },
+			nil,
+			func() string { fc := &geojson.FeatureCollection{}; err := bson.Unmarshal(cp(), fc); return classOf(err, false) },
+			nil,
 		}
-		runtime.ReadMemStats(&ms0)
-		res[0] = guard(func() string { g := &geojson.Geometry{}; err := bson.Unmarshal(cp(), g); return classOf(err, false) })
-		res[1] = "-"
-		res[2] = guard(func() string { f := &geojson.Feature{}; err := bson.Unmarshal(cp(), f); return classOf(err, false) })
-		res[3] = "-"
-		res[4] = guard(func() string { fc := &geojson.FeatureCollection{}; err := bson.Unmarshal(cp(), fc); return classOf(err, false) })
-		res[5] = "-"
-		runtime.ReadMemStats(&ms1)
 	}
-	rawnull := "0"
-	if bytes.Equal(data, []byte("null")) {
-		rawnull = "1"
+	typed := typedDecoders(kind, cp)
+	runMain := func(keep bool) {
+		for i, f := range main {
+			r := "-"
+			if f != nil {
+				r = guardW(f)
+			}
+			if keep {
+				res[i] = r
+			}
+		}
+	}
+	runTyped := func(keep bool) {
+		for i, f := range typed {
+			r := guardW(f)
+			if keep {
+				ty[i] = r
+			}
+		}
+	}
+	var n *jnode
+	var ok bool
+	if kind == "json" {
+		n, ok = parseJSONTree(data)
+	} else {
+		n, ok = bsonTree(data)
+	}
+	if !ok {
+		tree = "nojson"
+	} else if n.exotic() {
+		tree = "exotic"
+	} else {
+		tree = n.tokens()
 	}
 	// TotalAlloc is process-wide and the harness has other goroutines (driver pipe, bookkeeping maps):
 	// a suspicious delta is measured again (up to three more times) and the smallest one kept — the
 	// decoders are deterministic in what they allocate.  (Not for the huge quadratic-nesting cases.)
-	alloc := ms1.TotalAlloc - ms0.TotalAlloc
 	lin := uint64(1024 * len(data))
-	for try := 0; try < 3 && alloc > lin+(256<<10) && alloc < lin+(256<<20); try++ {
+	measure := func(run func(keep bool)) uint64 {
 		runtime.ReadMemStats(&ms0)
-		decodeAll()
+		run(true)
 		runtime.ReadMemStats(&ms1)
-		if a := ms1.TotalAlloc - ms0.TotalAlloc; a < alloc {
-			alloc = a
+		alloc := ms1.TotalAlloc - ms0.TotalAlloc
+		for try := 0; try < 3 && alloc > lin+(256<<10) && alloc < lin+(256<<20); try++ {
+			runtime.ReadMemStats(&ms0)
+			run(false)
+			runtime.ReadMemStats(&ms1)
+			if a := ms1.TotalAlloc - ms0.TotalAlloc; a < alloc {
+				alloc = a
+			}
 		}
+		return alloc
 	}
-	return fmt.Sprintf("%s ; rawnull %s ; ug %s ; ugp %s ; uf %s ; ufp %s ; ufc %s ; ufcp %s ; alloc %d %d",
-		tree, rawnull, res[0], res[1], res[2], res[3], res[4], res[5], alloc, len(data))
+	alloc := measure(runMain)
+	talloc := measure(runTyped)
+	rawnull := "0"
+	if bytes.Equal(data, []byte("null")) {
+		rawnull = "1"
+	}
+	return fmt.Sprintf("%s ; rawnull %s ; ug %s ; ugp %s ; uf %s ; ufp %s ; ufc %s ; ufcp %s ; ty %s ; alloc %d %d %d",
+		tree, rawnull, res[0], res[1], res[2], res[3], res[4], res[5], strings.Join(ty[:], " "), alloc, len(data), talloc)
 }
 
 // ---------------------------------------------------------------------------------------------
@@ -1194,7 +1319,8 @@ func c02BBox(c *Ctx) string {
 
 func c02GeomOpts(c *Ctx, topNil bool) GenOpts {
 	mode := []CoordMode{CoordFloat, CoordFloat, CoordSmallInt, CoordHalf}[c.Rng.Intn(4)]
-	return GenOpts{Mode: mode, MaxPts: 5, MaxDepth: 3, TopNil: topNil}
+	// InnerNil: nil rings / lines / polygons and typed-nil collection members (inputs travel as gsN)
+	return GenOpts{Mode: mode, MaxPts: 5, MaxDepth: 3, TopNil: topNil, InnerNil: true}
 }
 
 // hasEmptyMember reports whether a collection (at any depth) has an empty collection as a member.
@@ -1251,7 +1377,11 @@ func c02GenFeature(c *Ctx) string {
 	if r.Intn(10) != 0 {
 		g = c02GenGeom(c, r.Intn(6) == 0)
 	}
-	return "F " + id + " " + c02BBox(c) + " " + gs(g) + " " + props
+	ty := ""
+	if r.Intn(8) == 0 { // the Type field of the VALUE is not what is written ("Feature" always is)
+		ty = xs([]string{"", "Feature", "feature", "Point", "X"}[r.Intn(5)]) + " "
+	}
+	return "F " + ty + id + " " + c02BBox(c) + " " + gsN(g) + " " + props
 }
 
 func c02GenFC(c *Ctx) string {
@@ -1272,7 +1402,11 @@ func c02GenFC(c *Ctx) string {
 	default:
 		extra = c02Map(c, 0, true).tokens()
 	}
-	return "FC " + c02BBox(c) + " " + fs + " " + extra
+	ty := ""
+	if r.Intn(8) == 0 {
+		ty = xs([]string{"", "FeatureCollection", "Feature", "X"}[r.Intn(4)]) + " "
+	}
+	return "FC " + ty + c02BBox(c) + " " + fs + " " + extra
 }
 
 func genC02(c *Ctx) {
@@ -1289,36 +1423,62 @@ func genC02(c *Ctx) {
 			orb.Collection{orb.Collection{orb.Point{1, 2}}, orb.Ring{{0, 0}, {1, 0}, {1, 1}, {0, 0}}, orb.Bound{Min: orb.Point{0, 0}, Max: orb.Point{1, 1}}},
 			orb.Point{math.Copysign(0, -1), 5e-324}, orb.Point{math.MaxFloat64, -math.MaxFloat64},
 			orb.Point{0.1, 0.30000000000000004}, orb.Point{1e21, 1e-7}, orb.Point{123456789012345680000, 1e20},
+			// nil MEMBERS: nil ring / line / polygon, typed-nil and nil-interface collection members
+			orb.Polygon{nil}, orb.Polygon{nil, {{0, 0}, {1, 0}, {0, 0}}}, orb.Polygon{{{0, 0}, {1, 0}, {0, 0}}, nil},
+			orb.MultiLineString{nil}, orb.MultiLineString{nil, {{1, 2}}}, orb.MultiPolygon{nil}, orb.MultiPolygon{{nil}},
+			orb.MultiPolygon{{{{0, 0}, {1, 0}, {0, 0}}}, nil, {nil, {}}},
+			orb.Collection{orb.MultiPoint(nil)}, orb.Collection{orb.LineString(nil)}, orb.Collection{orb.MultiLineString(nil)},
+			orb.Collection{orb.Ring(nil)}, orb.Collection{orb.Polygon(nil), orb.Point{1, 2}}, orb.Collection{orb.MultiPolygon(nil)},
+			orb.Collection{orb.Collection(nil)}, orb.Collection{orb.Point{1, 2}, orb.Collection(nil)},
+			orb.Collection{orb.Polygon{nil}}, orb.Collection{orb.Collection{orb.MultiLineString{nil}}},
+			orb.Collection{nil}, orb.Collection{orb.Point{1, 2}, nil},
 		)
 		for _, g := range fixed {
-			c.Case("geom", gs(g))
-			c.Case("typed", gs(g))
-			c.Case("feat", "F - - "+gs(g)+" -")
-			c.Case("fc", "FC - l 1 F - - "+gs(g)+" - -")
+			c.Case("geom", gsN(g))
+			c.Case("typed", gsN(g))
+			c.Case("feat", "F - - "+gsN(g)+" -")
+			c.Case("fc", "FC - l 1 F - - "+gsN(g)+" - -")
 		}
 		c.Case("fc", "FC - - -")
 		c.Case("fc", "FC b 0 l 0 o 0")
+		c.Case("fc", "FC "+xs("X")+" - l 2 N F "+xs("")+" - - P "+fb(1)+" "+fb(2)+" - o 1 "+xs("k")+" n")
+		// bbox.go: every length 0..9 (Valid: >= 4 and even; Bound: mid = len/2), nil
+		for n := -1; n <= 9; n++ {
+			bb := "-"
+			if n >= 0 {
+				bb = "b " + strconv.Itoa(n)
+				for i := 0; i < n; i++ {
+					bb += " " + fb(float64(i+1)*1.5)
+				}
+			}
+			c.Case("bbox", bb+" "+fb(-1)+" "+fb(-2.5)+" "+fb(3)+" "+fb(4))
+		}
 	}
-	genGeoJSONHostileCorpus(c, func(input string) { c.Case("hostile", input) })
-	genGeoJSONHostileTyped(c, true, func(input string) { c.Case("hostile", input) })
+	hostile := func(input string) { c.Case("hostile", input) }
+	genGeoJSONHostileCorpus(c, hostile)
+	// the exhaustive family of tiny documents: on EVERY shard (it is sharded by Mine), before the
+	// random stream so that a deadline cannot cut it off
+	genGeoJSONHostileFixed(c, hostile)
+	genGeoJSONHostileTyped(c, true, hostile)
 	for k := 0; k < c.Budget && !c.Exhausted(); k++ {
 		g := c02GenGeom(c, true)
-		c.Case("geom", gs(g))
+		c.Case("geom", gsN(g))
 		if k%4 == 0 {
 			o := c02GeomOpts(c, true)
 			o.MaxDepth = 0
-			c.Case("typed", gs(genGeom(r, o, 0)))
+			c.Case("typed", gsN(genGeom(r, o, 0)))
 		}
 		c.Case("feat", c02GenFeature(c))
 		if k%2 == 0 {
 			c.Case("fc", c02GenFC(c))
 		}
 		if k%2 == 1 {
-			genGeoJSONHostileN(c, 2, func(input string) { c.Case("hostile", input) })
+			genGeoJSONHostileN(c, 2, hostile)
 		}
-	}
-	if c.Tier == "thorough" || c.Shard == 0 {
-		genGeoJSONHostileFixed(c, func(input string) { c.Case("hostile", input) })
+		if k%16 == 0 {
+			b := orb.Bound{Min: orb.Point{coord(r, CoordFloat), coord(r, CoordFloat)}, Max: orb.Point{coord(r, CoordFloat), coord(r, CoordFloat)}}
+			c.Case("bbox", c02BBox(c)+" "+fb(b.Min[0])+" "+fb(b.Min[1])+" "+fb(b.Max[0])+" "+fb(b.Max[1]))
+		}
 	}
 }
 
@@ -1567,13 +1727,12 @@ func c02SeedTree(c *Ctx) *jnode {
 // genGeoJSONHostile emits hostile inputs for runGeoJSONHostile: structure-aware mutations of valid
 // documents (null / wrong-typed / missing / duplicated members at every position, wrong coordinate
 // arity and depth, unknown types, key case, member order), text-level damage (truncation, padding,
-// deep nesting) and, once per run, a small exhaustive family of tiny documents.
+// deep nesting) and, once per run (spread over the shards), an exhaustive family of tiny documents.
+// Order: corpus, exhaustive family, typed-substitution family, random mutations.
 func genGeoJSONHostile(c *Ctx, emit func(input string)) {
 	genGeoJSONHostileCorpus(c, emit)
+	genGeoJSONHostileFixed(c, emit) // on every shard: the family is sharded by Mine
 	genGeoJSONHostileTyped(c, c.Tier == "thorough", emit)
-	if c.Shard == 0 || c.Tier == "thorough" {
-		genGeoJSONHostileFixed(c, emit)
-	}
 	for k := 0; k < c.Budget && !c.Exhausted(); k++ {
 		genGeoJSONHostileN(c, 1, emit)
 	}
@@ -1902,4 +2061,97 @@ func genGeoJSONHostileFixed(c *Ctx, emit func(input string)) {
 		}
 		text(strings.Repeat("[", depth))
 	}
+	// BSON has no nesting limit of its own (encoding/json: 10000) and every nested UnmarshalBSON copies
+	// its whole sub-document (bson's UnmarshalerDecodeValue): deep documents, built byte by byte
+	raw := func(b []byte) {
+		idx++
+		if !c.Mine(idx) {
+			return
+		}
+		emit("bson " + hexOrEmpty(b))
+	}
+	depths := []int{10, 200, 1000}
+	if c.Tier == "thorough" {
+		depths = append(depths, 2000)
+	}
+	for _, depth := range depths {
+		gc := func(inner []byte, innerType byte) []byte { // {type: "GeometryCollection", geometries: [inner]}
+			return bsonDocBytes(
+				bsonElem(0x02, "type", bsonStr("GeometryCollection")),
+				bsonElem(0x04, "geometries", bsonDocBytes(bsonElem(innerType, "0", inner))))
+		}
+		point := bsonDocBytes(bsonElem(0x02, "type", bsonStr("Point")),
+			bsonElem(0x04, "coordinates", bsonDocBytes(bsonElem(0x01, "0", bsonF64(1)), bsonElem(0x01, "1", bsonF64(2)))))
+		for _, leaf := range []struct {
+			b []byte
+			t byte
+		}{{point, 0x03}, {nil, 0x0A}} { // a point / a null member at the bottom
+			d := gc(leaf.b, leaf.t)
+			for i := 1; i < depth; i++ {
+				d = gc(d, 0x03)
+			}
+			raw(d)
+			raw(bsonDocBytes(bsonElem(0x02, "type", bsonStr("Feature")), bsonElem(0x03, "geometry", d), bsonElem(0x0A, "properties", nil)))
+		}
+		arr := bsonDocBytes()
+		props := bsonDocBytes(bsonElem(0x10, "a", []byte{1, 0, 0, 0}))
+		for i := 0; i < depth; i++ {
+			arr = bsonDocBytes(bsonElem(0x04, "0", arr))
+			props = bsonDocBytes(bsonElem(0x03, "a", props))
+		}
+		raw(bsonDocBytes(bsonElem(0x02, "type", bsonStr("Polygon")), bsonElem(0x04, "coordinates", arr)))
+		raw(bsonDocBytes(bsonElem(0x02, "type", bsonStr("Feature")), bsonElem(0x0A, "geometry", nil), bsonElem(0x03, "properties", props)))
+		raw(bsonDocBytes(bsonElem(0x02, "type", bsonStr("FeatureCollection")), bsonElem(0x04, "features", bsonDocBytes()), bsonElem(0x03, "x", props)))
+	}
+	// numbers whose 8 payload bytes are a well-formed 8-byte document, where an Unmarshaler gets them
+	// (see docLike8): `{x: null}`, `{"": true}`, `{k: MinKey}` as int64 and as double; and near misses
+	for _, w := range []uint64{0x0000780A00000008, 0x0001000800000008, 0x00006bff00000008, 0x0100780A00000008, 0x0000780A00000009, 5, 8} {
+		for _, num := range [][]byte{bsonU64(w)} {
+			for _, t := range []byte{0x12, 0x01} { // int64, double
+				raw(bsonDocBytes(bsonElem(0x02, "type", bsonStr("Feature")), bsonElem(t, "geometry", num)))
+				raw(bsonDocBytes(bsonElem(0x02, "type", bsonStr("GeometryCollection")),
+					bsonElem(0x04, "geometries", bsonDocBytes(bsonElem(t, "0", num)))))
+				raw(bsonDocBytes(bsonElem(0x02, "type", bsonStr("FeatureCollection")),
+					bsonElem(0x04, "features", bsonDocBytes(bsonElem(t, "0", num)))))
+				raw(bsonDocBytes(bsonElem(0x02, "type", bsonStr("Point")), bsonElem(0x04, "coordinates",
+					bsonDocBytes(bsonElem(t, "0", num), bsonElem(t, "1", num)))))
+			}
+		}
+	}
 }
+
+// raw BSON building blocks (no reflection, no quadratic re-marshalling of nested values)
+func bsonElem(t byte, key string, val []byte) []byte {
+	b := append([]byte{t}, key...)
+	b = append(b, 0)
+	return append(b, val...)
+}
+
+func bsonDocBytes(elems ...[]byte) []byte {
+	n := 5
+	for _, e := range elems {
+		n += len(e)
+	}
+	b := make([]byte, 4, n)
+	b[0], b[1], b[2], b[3] = byte(n), byte(n>>8), byte(n>>16), byte(n>>24)
+	for _, e := range elems {
+		b = append(b, e...)
+	}
+	return append(b, 0)
+}
+
+func bsonStr(s string) []byte {
+	n := len(s) + 1
+	b := []byte{byte(n), byte(n >> 8), byte(n >> 16), byte(n >> 24)}
+	return append(append(b, s...), 0)
+}
+
+func bsonU64(u uint64) []byte {
+	b := make([]byte, 8)
+	for i := range b {
+		b[i] = byte(u >> (8 * uint(i)))
+	}
+	return b
+}
+
+func bsonF64(f float64) []byte { return bsonU64(math.Float64bits(f)) }
